@@ -3,7 +3,7 @@ import ast
 
 from ..core import RuleResult, need
 from ..cfg import cfg_of
-from ..flow import flow_of
+from ..flow import flow_of, path_base
 from ..astutil import (src, call_attr, call_name, compare_parts, names_in, is_name, path_of, returns_of)
 
 THM = 'kernel/thm.py'
@@ -445,6 +445,53 @@ def rule_p9(repo):
     return res
 
 
+def rule_p10(repo):
+    """A step may cite an earlier line of its own block or of an enclosing block: the cited identifier,
+    without its last component, must be a prefix of the citing one, and its last component smaller than the
+    citing identifier's component at that position.  Whatever way this is written, a comparison that finds
+    the two identifiers *different* somewhere before the last component of the cited one can only mean "no";
+    and "yes" can only be answered after the prefixes were compared."""
+    res = RuleResult('C02.P10', 'can_depend_on answers "no" wherever the identifiers differ before the cited line\'s last component, and "yes" only after comparing the prefixes', floor=2)
+    f = repo.func('kernel/proof.py', 'ItemID.can_depend_on')
+    cfg = cfg_of(f.node)
+    flow = flow_of(f.node)
+    me, other = f.params()[0], f.params()[1]
+
+    def about_ids(e):
+        roots = {path_base(p) for p in flow.resolve(e)}
+        return bool(roots & {me, other})
+    eq_tests = []
+    for t in cfg.test_nodes():
+        cp = compare_parts(t.ast)
+        if cp and cp[0] in (ast.Eq, ast.NotEq) and about_ids(cp[1]) and about_ids(cp[2]) and \
+                not (isinstance(cp[1], ast.Call) or isinstance(cp[2], ast.Call)):
+            eq_tests.append((t, 'true' if cp[0] is ast.NotEq else 'false', 'false' if cp[0] is ast.NotEq else 'true'))
+    need(eq_tests, 'ItemID.can_depend_on: no (in)equality test between the two identifiers')
+
+    def is_false(r):
+        return isinstance(r.ast.value, ast.Constant) and r.ast.value.value is False
+    for t, unequal, equal in eq_tests:
+        after = cfg.reach_from([b for b, l in t.succ if l == unequal])
+        wrong = [r for r in cfg.return_nodes() if r.id in after and not is_false(r)]
+        # a return reached from the unequal side through the *next* round of a loop that compares further components is
+        # still "different earlier": only `return False` is admissible
+        res.add('kernel/proof.py :: ItemID.can_depend_on :: different(%s)' % src(t.ast, 40), not wrong,
+                'where the identifiers differ the answer is False' if not wrong else
+                'when `%s` finds the identifiers different, `%s` (line %d) can still answer yes: a step may then cite a line inside an earlier, '
+                'already closed block (1.0 citing 0.0), which the checker never visits' % (src(t.ast, 40), src(wrong[0].ast, 40), wrong[0].lineno),
+                '%s:%d' % ('kernel/proof.py', t.lineno))
+    equal_edges = {(t.id, equal) for t, _u, equal in eq_tests}
+    yes = [r for r in cfg.return_nodes() if not is_false(r)]
+    need(yes, 'ItemID.can_depend_on: no return that can answer yes')
+    # a loop that compares the prefix component by component counts as the comparison (it may have nothing to compare)
+    loops = [it for it in cfg.nodes_of_kind('iter') if any(it.ast.lineno <= t.lineno <= (it.ast.end_lineno or 0) for t, _u, _e in eq_tests)]
+    bad = [r for r in yes if cfg.path_avoiding(r, skip_edges=equal_edges, skip_nodes=loops) is not None]
+    res.add('kernel/proof.py :: ItemID.can_depend_on :: yes-after-prefix-comparison', not bad,
+            'every possibly-true answer is behind an equality test of the prefixes' if not bad else
+            '`%s` (line %d) is reachable without comparing the prefixes of the two identifiers' % (src(bad[0].ast, 40), bad[0].lineno), f.loc)
+    return res
+
+
 def rules(repo):
     return [rule_p1(repo), rule_p2(repo), rule_p3(repo), rule_p4(repo), rule_p5(repo), rule_p6(repo), rule_p7(repo),
-            rule_p8(repo), rule_p9(repo)]
+            rule_p8(repo), rule_p9(repo), rule_p10(repo)]
